@@ -980,10 +980,12 @@ fn run_lockstep_impl(cfg: &ScenCfg, out: &mut RunOut, rtu: bool) {
                     }
                     2 => {
                         // stale reply: tx - k
-                        let k = match weighted(&[3, 1, 1]) {
+                        let k = match weighted(&[3, 1, 1, 2]) {
                             0 => 1 + choose(3) as u16,
                             1 => 65535,
-                            _ => 1 + choose(65535) as u16,
+                            2 => 1 + choose(65535) as u16,
+                            // distances at which byte-wise or wrap-aware comparisons could go wrong
+                            _ => [255u16, 256, 257, 32767, 32768, 32769, 65280, 65534][choose(8) as usize],
                         };
                         let base = tx.unwrap_or(l.model.tx_id);
                         let p = spec.as_ref().map(|s| correct_reply(&s.req)).unwrap_or(vec![3, 2, 0, 1]);
